@@ -213,9 +213,9 @@ func (g *Gen) lookupIdent(name string, env *Env) (Term, error) {
 					n := "fv!" + sanitize(fv.Name())
 					if _, ok := g.decl[n]; !ok {
 						g.declare(n, g.sortOf(et))
-						g.assumeRaw(g.typeInv(n, et))
+						g.preDefs = append(g.preDefs, "(assert "+g.typeInv(n, et)+")")
 						if isRefType(et) {
-							g.assumeRaw(fmt.Sprintf("(or (= %s 0) (select $alloc!0 %s))", n, n))
+							g.preDefs = append(g.preDefs, fmt.Sprintf("(assert (or (= %s 0) (select $alloc!0 %s)))", n, n))
 						}
 					}
 					if _, isSt := structOf(et); isSt {
